@@ -448,4 +448,6 @@ package simpledb
 //@   //  read-only file, outside the crash-point quantifier of C02 / C10; the clause excludes it explicitly)
 //@   exit [C10,C02:finished-or-deleted-never-both] len(compactionsToFinish) != old(len(compactionsToFinish)) && callres(ReaderI.Close, 0, 0) == nil ==>
 //@        len(compactionsToDelete) == old(len(compactionsToDelete))
+//@   exit [C10,C02:a-readable-flag-is-finished-not-deleted] called(ReaderI.ReadNext, 0) && callres(ReaderI.ReadNext, 0, 1) == nil && callres(ReaderI.Close, 0, 0) == nil ==>
+//@        len(compactionsToFinish) == old(len(compactionsToFinish)) + 1 && len(compactionsToDelete) == old(len(compactionsToDelete))
 //@   exit [C19:flag-reader-closed] called(proto.NewReader, 0) && callres(proto.NewReader, 0, 1) == nil ==> called(ReaderI.Close, 0)
